@@ -59,6 +59,9 @@ class FakeConnection(aioredis.Connection):
         self._sock = None
 
     async def can_read(self, timeout: float = 0):
+        if not self._server.connected:
+            # As in the synchronous connection: let the caller read, so that it sees the connection error
+            return True
         if not self.is_connected:
             await self.connect()
         if timeout == 0:
